@@ -54,6 +54,11 @@ def gen_tles(ctx, n, drag_free=False):
         ov = {}
         if drag_free:
             ov = {"bstar": " 00000-0", "ndot": " .00000000", "nddot": " 00000-0"}
+        elif ctx.rng.random() < 0.08:
+            # a B* printed with a non-normalised mantissa (leading zero) at the top of the property's drag range, low orbit:
+            # read ten times too large, the orbit would leave its perigee/apogee band within days
+            ov = {"bstar": ctx.rng.choice([" ", "-"]) + "0" + "%04d" % ctx.rng.randrange(1000, 3001) + "-1",
+                  "mmotion": "%11.8f" % ctx.rng.uniform(15.2, 15.7), "ecc": "%07d" % ctx.rng.randrange(1000, 30000)}
         f, a, b = tlegen.random_tle(ctx.rng, ctx.rng.choice(["near", "leo"]), overrides=ov)
         e = int(f["ecc"]) * 1e-7
         if e > 0.4:
@@ -175,6 +180,13 @@ def oracle(ctx):
         except Exception:  # noqa
             continue
         ctx.count("eval_oracle_summary")
+        # the summary describes the trajectory whatever the object has been asked before
+        try:
+            o.get_orbit_number(o.tle.epoch + np.timedelta64(3600, "s"))
+            o.get_lonlatalt(o.tle.epoch)
+            o.get_last_an_time(o.tle.epoch)
+        except Exception:  # noqa
+            pass
         oe = o.orbit_elements
         period_min = float(oe.period)
         step = 10.0
